@@ -33,7 +33,7 @@ STATEFUL_LEAVES = {'Latch', 'AsynchronousMemory', 'BidirBuf'}
 def gen(rs, tier, index):
     rng = rs.get('design')
     mode = rng.random()
-    comb = kinds_with(seq=False, exclude=('rot',)) + kinds_with(tag='rot')
+    comb = kinds_with(seq=False, exclude=('rot',)) + kinds_with(tag='rot') + (kinds_with(tag='big') if tier == 'thorough' or rng.random() < 0.15 else [])
     seqk = [KINDS[k] for k in ('Reg', 'Counter', 'DelayLine', 'TReg')]
     scn = {'mode': 'acyclic'}
     if mode < 0.12:
